@@ -45,7 +45,7 @@ CHECKS["C05"] = dict(
 CHECKS["C14"] = dict(
    category="exploration",
    technique="exhaustive enumeration of single-gap and uniform layout variants of the corpus; oracle: independent tokenizer + containment/ordering/exact-name invariants over a generic tree view of the AST, diagnostics and query results",
-   text="For every base text (25 smallest corpus files quick / all thorough, plus every expression template, incl. one per branch of the parser's lambda/tuple disambiguation) the original layout, 7 uniform fillers, one long line and every inter-token gap replaced by each of 7 fillers (space, LF, CRLF, tab, mixed, multi-line block comment, line comment): every AST node range has start<=end, lies inside the document, encloses its parts, siblings are disjoint and ordered, every identifier-bearing node's range is exactly the token spelling that name (per an independent tokenizer); every diagnostic location, folding range, definition/reference location and quick-fix edit range lies inside the document.",
+   text="For every base text (25 smallest corpus files quick / all thorough, plus every expression template, incl. one per branch of the parser's lambda/tuple disambiguation) the original layout, 10 uniform fillers, one long line and every inter-token gap replaced by each of 10 fillers (space, lone CR, CR-space-CR, block comment containing a CR, LF, CRLF, tab, mixed, multi-line block comment, line comment): every AST node range has start<=end, lies inside the document, encloses its parts, siblings are disjoint and ordered, every identifier-bearing node's range is exactly the token spelling that name (per an independent tokenizer); every diagnostic location, folding range, definition/reference location and quick-fix edit range lies inside the document.",
    note="ASCII layouts only (column unit for non-ASCII text is not fixed by the property). The parser's deliberate choice to start a class's type-definition range at its type parameters is treated as containment, not as sibling overlap.",
    design_ref="DESIGN.md §5 C14")
 CHECKS["C07"] = dict(
